@@ -439,10 +439,11 @@ impl<'a> Report<'a> {
     /// Runs one generated part. `f` is the oracle: `Ok` = held, `Err(Failure)` = violated;
     /// a panic inside `f` is a violation with signature `panic: …` (harnesses that expect
     /// panics use [`catch`] themselves).
-    pub fn explore<T, S, F>(&mut self, name: &str, rule: &str, strategy: S, cases: u32, f: F)
+    pub fn explore<T, S, M, F>(&mut self, name: &str, rule: &str, mk: M, cases: u32, f: F)
     where
         T: Debug + Clone + Serialize + DeserializeOwned + Send,
-        S: Strategy<Value = T> + Clone + Send + Sync,
+        S: Strategy<Value = T>,
+        M: Fn() -> S + Sync,
         F: Fn(&T, &mut CaseInfo) -> CheckResult + Sync,
     {
         let run_one = |case: &T, info: &mut CaseInfo| -> CheckResult {
@@ -529,7 +530,7 @@ impl<'a> Report<'a> {
                 if n == 0 {
                     continue;
                 }
-                let strategy = strategy.clone();
+                let mk = &mk;
                 let stop = &stop;
                 let results = &results;
                 let run_one = &run_one;
@@ -549,6 +550,7 @@ impl<'a> Report<'a> {
                             ..Config::default()
                         };
                         let mut runner = TestRunner::new(cfg);
+                        let strategy = mk();
                         let res = runner.run(&strategy, |case| {
                             if stop.load(Ordering::Relaxed) && first_fail.borrow().is_none() {
                                 // another worker already found a failure: finish fast
